@@ -184,9 +184,8 @@ theorem Core.exec {s : State} (h : Core s) {c : Cmd} (hc : c ∈ s.objs) (hm : c
   obtain ⟨hfin, hini, q, hq, h1, h2, h3⟩ := h.live c hc hm
   have hinj := @serial_inj _ h.serials
   apply h.update (fun o => if o.serial == c.serial then
-      { o with iters := c.iters + 1, complete := o.complete ||
-        (!((specOf s.cfg c.name).failAt == some c.iters) && (specOf s.cfg c.name).dur != 0 &&
-          decide (c.iters + 1 ≥ (specOf s.cfg c.name).dur)) } else o) [.exec c.serial c.name c.iters]
+      { o with iters := c.iters + 1, complete := o.complete || execCompletes s c } else o)
+      [.exec c.serial c.name c.iters]
   · simp [execObj, modObj]
   · simp [execObj]
   · simp [execObj]
